@@ -1,5 +1,6 @@
 """C08 - see DESIGN.md section 5; shared machinery in corecommon.py"""
 from checks import corecommon as cc
+from checks import corefam8
 from checks import ctxhist
 
 PID = "C08"
@@ -23,6 +24,7 @@ LEAN_MODULES = LEAN_MODULES + ctxhist.WITH_LEAN_MODULES
 THEOREMS = THEOREMS + ["AsynqModel.Contexts." + n for n in ctxhist.WITH_THEOREMS]
 # audited with the rest, but true by construction of the with-block model and not part of the claim (see ctxhist.WITH_BY_CONSTRUCTION)
 BY_CONSTRUCTION = ["AsynqModel.Contexts." + n for n in ctxhist.WITH_BY_CONSTRUCTION]
+RULE += "; plus round-6 family flushabort (a flush that fails BEFORE the batch is executed - raising on_before_batch_flush handler, raising _try_switch_active_batch - or right after it, at top level or in a nested synchronous call; then an unrelated computation: scheduler clean, only its own batch flushed, hooks for its batch only, no item of the first computation touched), judged by direct expectation (Drv/Families8.lean)"
 RULE += "; plus " + ctxhist.WITH_RULE
 RULE += "; plus families hookenter, composite (Drv/Families6c.lean) crossthread and reawait (Drv/Families6t.lean), judged by direct expectation"
 TRUSTED = cc.TRUSTED_CORE + ["family ctxwith: hand-written Lean model AsynqModel.Contexts.runW (Lib/ContextsWith.lean: with-blocks of a "
@@ -41,6 +43,7 @@ def extra(tier, rng):
     res += cc.guard_cases(tier, rng)
     res += cc.corefam4.selfawait_cases(tier, cc.fork(rng, "selfawait"))
     res += ctxhist.with_cases(tier, cc.fork(rng, "ctxwith"))
+    res += corefam8.flushabort_cases(tier, cc.fork(rng, "flushabort"))
     res += cc.corefam6c.hookenter_cases(tier, cc.fork(rng, "hookenter")) + cc.corefam6c.composite_cases(tier, cc.fork(rng, "composite"))
     res += cc.corefam6t.crossthread_cases(tier, cc.fork(rng, "crossthread")) + cc.corefam6t.reawait_cases(tier, cc.fork(rng, "reawait"))
     return res
@@ -51,12 +54,16 @@ def plan(tier, seed):
 
 
 def run_case(case):
+    if case.get("special") in corefam8.RUNNERS:
+        return corefam8.run(case, PID)
     if case.get("special") == "ctxwith":
         return ctxhist.run(case)
     return cc.run_case_for(PID, case)
 
 
 def shrink(case):
+    if case.get("special") in corefam8.RUNNERS:
+        return corefam8.shrink(case)
     if case.get("special") == "ctxwith":
         return ctxhist.shrink(case)
     return cc.shrink_case(case)
